@@ -60,3 +60,25 @@ package cache
 //@   props C06,C02
 //@   requires dc != nil && dc.cache != nil && dc.cache.cache != nil && w != nil && w.WriteCloser != nil
 //@   assert[C06,C02] before "dc.putBuffer(b)" : !added
+//@   ensures[C06,C02] !dc.syncAdd ==> (forall x ref :: lruGiven[x] == old(lruGiven[x]))
+//@ func (dc *directoryCache) Add$3$1
+//@   props C06,C02
+//@   taggedonly
+//@   requires w != nil && w.WriteCloser != nil && done != nil
+//@   assert[C06,C02] before "n, err := w.Write(cached.(*bytes.Buffer).Bytes())" : forall x ref :: lruGiven[x] == old(lruGiven[x])
+
+// ---- C06 / C02: the LRU reference taken by the in-memory commit is held until the write-back to the file is over ----
+// dc.cache.Add hands out a reference on the entry together with the (possibly already cached) buffer. The write-back
+// reads that buffer; with asynchronous adds it runs in a goroutine after Commit returned. Giving the reference back
+// before the write-back has finished lets an eviction recycle the pooled buffer under the write-back, which then stores
+// another chunk's bytes under this key. So: the commit function itself never gives the reference back unless it runs the
+// write-back synchronously, and the write-back gives it back exactly once, after the buffer was written out.
+//@ func util/cacheutil.(*LRUCache).Add
+//@   trusted
+//@   modifies nothing
+//@   ensures done != nil && cachedValue != nil
+//@   results cachedValue, done, added
+//@ func util/cacheutil.(*LRUCache).Add#done
+//@   modifies lruGiven[*]
+//@   ensures lruGiven[ref(self)] == old(lruGiven[ref(self)]) + 1
+//@   ensures forall x ref :: x != ref(self) ==> lruGiven[x] == old(lruGiven[x])
